@@ -143,8 +143,12 @@ def run(ctx: Ctx) -> None:
                 stx = x.stmt
                 if x.kind == "stmt" and isinstance(stx, ast.Expr) and isinstance(stx.value, ast.Call) and norm(stx.value.func) in ("self.tokbuf.appendleft",) and stx.value.args and isinstance(stx.value.args[0], ast.Name) and stx.value.args[0].id == v:
                     pushed += 1
+                if x.kind == "stmt" and isinstance(stx, ast.Assign) and any(isinstance(t, ast.Name) and t.id == v for t in stx.targets) and x is not a:
+                    # the variable is overwritten (`tok = None`): what is returned through it is no longer the looked-at token
+                    pushed += 100
                 if x.kind == "stmt" and isinstance(stx, ast.Return):
-                    returns_tok = isinstance(stx.value, ast.Name) and stx.value.id == v
+                    returns_tok = isinstance(stx.value, ast.Name) and stx.value.id == v and pushed < 100
+                    pushed = pushed % 100
                     if isnone:
                         pass
                     elif returns_tok and pushed != 0:
@@ -192,12 +196,14 @@ def run(ctx: Ctx) -> None:
     pr = pm.fn("_process_pragma_directive")
     pcfg = pm.cfg("_process_pragma_directive")
     acq = [n for n in pcfg.nodes if any(r == ("lex", "token_newline_eof_ok") for c, r in pm.node_calls("_process_pragma_directive", n))]
-    ok = len(acq) == 1
-    if ok:
-        nxt = [s for s, lab in acq[0].succ if lab != "exc"]
-        ok = len(nxt) == 1 and nxt[0].kind == "test" and ("NEWLINE" in norm(nxt[0].cond) or "endswith('\\n')" in norm(nxt[0].cond))
-        if ok and hazard:
-            ok = "endswith('\\n')" in norm(nxt[0].cond)
+    ok = len(acq) >= 1
+    for a_ in acq:
+        # the first thing decided about a token just read is whether it ends the line
+        nxt = [s for s, lab in a_.succ if lab != "exc"]
+        okk = len(nxt) == 1 and nxt[0].kind == "test" and ("NEWLINE" in norm(nxt[0].cond) or "endswith('\\n')" in norm(nxt[0].cond))
+        if okk and hazard:
+            okk = "endswith('\\n')" in norm(nxt[0].cond)
+        ok = ok and okk
     ctx.ob("R9.3", "parser:CxxParser._process_pragma_directive|stops at the line end", ok, msg="the #pragma scanner does not stop at every token that ends the line", node=pr, mod=mod)
 
     # ---------------------------------------------------------------- R9.4
